@@ -5,6 +5,10 @@ import Goyang.Props.C08
 import Goyang.Props.C04
 /-
 C08, bridge to `processAll` — `ConversionErrorsReported` (Props/C08.lean: stated, not proved there).
+This file completes `deviate_reported_conversion_partial` and `deviate_reported_unknown_kind_partial` of
+Props/C08.lean: with `conversionErrorsReported_loadTexts` no hypothesis is left for registries loaded
+from texts.  (The other statement Props/C08.lean once left open, `FrameAcrossModules`, is proved there
+as `frame_across_modules`; this file does not touch it.)
 
 The two conditions that are detected when the deviating (sub)module is converted (`toEntry`), before
 the deviation stage — an unknown deviate argument, a replacement type that does not resolve — make
